@@ -154,8 +154,8 @@ Family familyAt(uint64_t i, bool small, uint64_t seed) {
     Rng r = caseRng(seed, 0xfa, i);
     Family f;
     bool directed = i % 2 == 0;
-    unsigned kind = (unsigned)((i / 2) % 8);
-    unsigned step = (unsigned)(i / 16);
+    unsigned kind = (unsigned)((i / 2) % 9);
+    unsigned step = (unsigned)(i / 18);
     switch (kind) {
     case 0: {
         unsigned w = small ? 2 + step % 2 : 2 + step % 3;
@@ -205,6 +205,18 @@ Family familyAt(uint64_t i, bool small, uint64_t seed) {
             f.s.edges.push_back({2 * t, 2 * t + 2});
         }
         f.name = "shortcutTriangles(" + std::to_string(k) + ")";
+        break;
+    }
+    case 7: { // fan: source - a level of many vertices - a second level hanging off it (wide BFS levels, many equal keys in the heap)
+        unsigned w = small ? 48 + step % 30 : 40 + (step * 7) % 60;
+        unsigned tail = 2 + step % 9;
+        f.s.directed = directed;
+        f.s.n = 1 + w + tail;
+        for (unsigned k = 0; k < w; ++k) f.s.edges.push_back({0, 1 + k});
+        for (unsigned k = 0; k < w; ++k) f.s.edges.push_back(canon(directed, 1 + k, 1 + w + (k % tail)));
+        for (unsigned t = 0; t + 1 < tail; ++t) f.s.edges.push_back({1 + w + t, 1 + w + t + 1});
+        if (directed) f.s.edges.push_back({1 + w + tail - 1, 1 + (step % w)}); // an edge pointing back into the wide level
+        f.name = "fan(level=" + std::to_string(w) + ",tail=" + std::to_string(tail) + ")";
         break;
     }
     default: { // dense random graph: many decrease-key events
@@ -467,7 +479,7 @@ template <class G> G buildUnweighted(const GraphSpec &s, unsigned variant, Rng &
 struct WSpec {
     GraphSpec s;
     std::map<Edge, double> w;
-    int alphabet; // 0 {0,1,2,3}, 1 dyadic, 2 random doubles, 3 all zero, 4 by index distance, 5 integers 1..9
+    int alphabet; // 0 {0,1,2,3}, 1 dyadic, 2 random doubles, 3 all zero, 4 by index distance, 5 integers 1..9, 6 multiples of 2^-60
 };
 WSpec weigh(const GraphSpec &s, int alphabet, Rng &r) {
     WSpec ws;
@@ -491,6 +503,7 @@ WSpec weigh(const GraphSpec &s, int alphabet, Rng &r) {
             break;
         }
         case 5: w = (double)(1 + r.u(9)); break;
+        case 6: w = std::ldexp((double)(1 + r.u(4)), -60); break; // tiny magnitudes: every sum is still exact
         default: w = 0.0;
         }
         ws.w[e] = w;
@@ -680,8 +693,9 @@ int main(int argc, char **argv) {
 
     if (prop == "C11" || prop == "C12") {
         unsigned variants = 2;
-        SpecSpace sd(true, thorough ? 4 : 3, (uint64_t)R.args.geti("random", thorough ? 60000 : 3000), 4, 14);
-        SpecSpace su(false, thorough ? 5 : 4, (uint64_t)R.args.geti("random", thorough ? 60000 : 3000), 4, 14);
+        // every 30th random graph has 25-130 vertices and one or two hubs (BFS levels of 48 and more, queues longer than 64)
+        SpecSpace sd(true, thorough ? 4 : 3, (uint64_t)R.args.geti("random", thorough ? 60000 : 3000), 4, 14, 30, 130);
+        SpecSpace su(false, thorough ? 5 : 4, (uint64_t)R.args.geti("random", thorough ? 60000 : 3000), 4, 14, 30, 130);
         uint64_t nfam = thorough ? 1200 : 240;
         uint64_t total = (sd.count() + su.count()) * variants + nfam;
         if (R.args.mode == "count") {
@@ -696,7 +710,7 @@ int main(int argc, char **argv) {
                 uint64_t si = idx / variants;
                 variant = (unsigned)(idx % variants) * 2; // as enumerated / shuffled
                 s = si < sd.count() ? sd.at(si, seed) : su.at(si - sd.count(), seed);
-                R.count(s.exhaustive ? "graphs_from_exhaustive_enumeration" : "graphs_random");
+                R.count(s.exhaustive ? "graphs_from_exhaustive_enumeration" : (s.n >= 25 ? "graphs_random_25_to_132_vertices_with_hubs" : "graphs_random"));
             } else {
                 Family f = familyAt(idx - (sd.count() + su.count()) * variants, true, seed);
                 s = f.s;
@@ -713,19 +727,19 @@ int main(int argc, char **argv) {
             if (prop == "C11") {
                 bool intLabel = idx % 2;
                 if (s.directed) {
-                    if (intLabel) { auto g = buildUnweighted<CountDir<int>>(s, variant, r); e = c11(g, true); cls = "LabeledDirectedGraph<int>"; }
-                    else { auto g = buildUnweighted<CountDir<NoLabel>>(s, variant, r); e = c11(g, true); cls = "LabeledDirectedGraph<NoLabel>"; }
+                    if (intLabel) { auto g = buildUnweighted<CountDir<int>>(s, variant, r); e = c11(g, s.n <= 16); cls = "LabeledDirectedGraph<int>"; }
+                    else { auto g = buildUnweighted<CountDir<NoLabel>>(s, variant, r); e = c11(g, s.n <= 16); cls = "LabeledDirectedGraph<NoLabel>"; }
                 } else {
-                    if (intLabel) { auto g = buildUnweighted<CountUnd<int>>(s, variant, r); e = c11(g, true); cls = "LabeledUndirectedGraph<int>"; }
-                    else { auto g = buildUnweighted<CountUnd<NoLabel>>(s, variant, r); e = c11(g, true); cls = "LabeledUndirectedGraph<NoLabel>"; }
+                    if (intLabel) { auto g = buildUnweighted<CountUnd<int>>(s, variant, r); e = c11(g, s.n <= 16); cls = "LabeledUndirectedGraph<int>"; }
+                    else { auto g = buildUnweighted<CountUnd<NoLabel>>(s, variant, r); e = c11(g, s.n <= 16); cls = "LabeledUndirectedGraph<NoLabel>"; }
                 }
             } else {
                 // small exhaustive topologies get every alphabet, the rest one seeded alphabet
-                int nalpha = s.exhaustive && s.n <= 3 ? 6 : 2;
+                int nalpha = s.exhaustive && s.n <= 3 ? 7 : 2;
                 for (int a = 0; a < nalpha && e.empty(); ++a) {
-                    int alphabet = nalpha == 6 ? a : (a == 0 ? (int)(idx % 4) : 4 + (int)((idx / 4) % 2));
+                    int alphabet = nalpha == 7 ? a : (a == 0 ? (int)(idx % 4) : 4 + (int)((idx / 4) % 3));
                     WSpec ws = weigh(s, alphabet, r);
-                    static const char *an[] = {"0123", "dyadic", "random_double", "all_zero", "by_index_distance", "integers_1_to_9"};
+                    static const char *an[] = {"0123", "dyadic", "random_double", "all_zero", "by_index_distance", "integers_1_to_9", "multiples_of_2^-60"};
                     R.count(std::string("weight_alphabet_") + an[alphabet]);
                     if (s.directed) { auto g = buildWeighted<CountDW>(ws, variant, r); e = c12(g, ws, 0); cls = "DirectedWeightedGraph"; }
                     else { auto g = buildWeighted<CountUW>(ws, variant, r); e = c12(g, ws, 0); cls = "UndirectedWeightedGraph"; }
